@@ -9,7 +9,7 @@ import types
 import refcodec as rc
 import sched as SC
 
-EXTRA_PROPS = ['C12Bytes']
+EXTRA_PROPS = ['C12Bytes', 'C12Final']
 
 RULE = ("1..4 user threads with programs over {queued write, forced write, graceful disconnect, "
         "immediate disconnect} (0..5 ops each, distinct packets) against the networking thread's own "
